@@ -19,8 +19,9 @@ func verifMakeList(n int, nSecrets int, withHistory bool) (CipherList, []verifKe
 	l := list.New()
 	specs := make([]verifKeySpec, n)
 	entries := make([]*CipherEntry, n)
-	ipA := netip.AddrFrom4([4]byte{203, 0, 113, 5})
-	ipB := netip.AddrFrom4([4]byte{203, 0, 113, 6})
+	// last-used addresses are recorded in the form remoteIP() yields for a connection
+	ipA := remoteIP(&verifStreamConn{remote: &net.TCPAddr{IP: net.IPv4(203, 0, 113, 5), Port: 1}})
+	ipB := remoteIP(&verifStreamConn{remote: &net.TCPAddr{IP: net.IPv4(203, 0, 113, 6), Port: 1}})
 	for i := 0; i < n; i++ {
 		specs[i] = verifKeySpec{verifChoice("cipher", 4), verifChoice("secret", nSecrets)}
 		e := MakeCipherEntry("id-"+string(rune('0'+i)), verifKey(specs[i].cipher, verifSecrets[specs[i].secret]), verifSecrets[specs[i].secret])
@@ -143,4 +144,47 @@ func VH_C01_bitflip() {
 	entry, _, _, _, err := findAccessKey(conn, remoteIP(conn), cl, noopLogger())
 	verifAssert("C01.bitflip.rejected", entry == nil && err != nil)
 	verifReach("C01.bitflip.done", true)
+}
+
+
+// a snapshot taken while another connection marks a key as used still contains every key once
+func VH_C01_concurrent_snapshot() {
+	verifSched(1)
+	n, k, reps := 2, 1, 1
+	if verifNative() {
+		n, k, reps = 600, 6, 200 // a long list widens the window between the two passes natively
+	}
+	for rep := 0; rep < reps; rep++ {
+		l := list.New()
+		for i := 0; i < n; i++ {
+			e := MakeCipherEntry("id", verifKey(0, "s1"), "s1")
+			l.PushBack(&e)
+		}
+		cl := NewCipherList()
+		cl.Update(l)
+		ip := remoteIP(&verifStreamConn{remote: &net.TCPAddr{IP: net.IPv4(203, 0, 113, 5), Port: 1}})
+		base := cl.SnapshotForClientIP(netip.Addr{})
+		snaps := make([][]*list.Element, k)
+		fs := make([]func(), 0, k+2)
+		for i := 0; i < k; i++ {
+			i := i
+			fs = append(fs, func() { snaps[i] = cl.SnapshotForClientIP(ip) })
+		}
+		fs = append(fs, func() { cl.MarkUsedByClientIP(base[n-1], ip) })
+		if verifNative() {
+			fs = append(fs, func() { cl.MarkUsedByClientIP(base[n/2], ip) })
+		}
+		verifParStart(make(chan struct{}), fs...)
+		for _, snap := range snaps {
+			verifAssert("C01.concurrent.snapshot-length", len(snap) == n)
+			complete := len(snap) == n
+			for _, el := range snap {
+				if el == nil {
+					complete = false
+				}
+			}
+			verifAssert("C01.concurrent.snapshot-complete", complete)
+		}
+	}
+	verifReach("C01.concurrent.done", true)
 }
